@@ -85,3 +85,109 @@ Fixpoint dcond_ok (curr : env) (d : dstmt) : Prop :=
          | c :: cs' => (fix run (l : list dstmt) : Prop := match l with [] => True | x :: l' => dcond_ok curr x /\ run l' end) (snd c) /\ go cs'
          end) cs
   end.
+
+(* ======================================================================================================
+   FSM (appended): Module.FSM / State / `m.next = ` / FSM.ongoing and the "FSM" branch of Module._pop_ctrl.
+   State names are `nat`; Python's insertion-ordered dicts are association lists in insertion order.
+   No proofs here (Proofs/DslP.v). *)
+From V.Model Require Import Derived.
+
+Fixpoint assoc_get {V : Type} (d : list (nat * V)) (k : nat) : option V :=
+  match d with
+  | [] => None
+  | (k', v) :: r => if Nat.eqb k' k then Some v else assoc_get r k
+  end.
+(* d[k] = v: the value of an existing key is replaced in place, a new key goes to the end *)
+Fixpoint assoc_set {V : Type} (d : list (nat * V)) (k : nat) (v : V) : list (nat * V) :=
+  match d with
+  | [] => [(k, v)]
+  | (k', v') :: r => if Nat.eqb k' k then (k', v) :: r else (k', v') :: assoc_set r k v
+  end.
+Fixpoint zassoc_set {V : Type} (d : list (Z * V)) (k : Z) (v : V) : list (Z * V) :=
+  match d with
+  | [] => [(k, v)]
+  | (k', v') :: r => if Z.eqb k' k then (k', v) :: r else (k', v') :: zassoc_set r k v
+  end.
+
+(* first reference of a state name (State(name), m.next = name, fsm.ongoing(name)):
+     if name not in encoding: encoding[name] = len(encoding); ongoing[name] = Signal()
+   `fresh` is the identity of the one-bit signal created for ongoing(name) *)
+Definition fsm_ref (st : list (nat * Z) * list (nat * expr)) (s : nat) (fresh : nat)
+  : list (nat * Z) * list (nat * expr) :=
+  match assoc_get (fst st) s with
+  | Some _ => st
+  | None => (assoc_set (fst st) s (Z.of_nat (length (fst st))), assoc_set (snd st) s (ESig fresh (Sh 1 false)))
+  end.
+(* the encoding after a sequence of references (the signal identities do not matter for it) *)
+Definition fsm_encoding (refs : list nat) : list (nat * Z) :=
+  fst (fold_left (fun st s => fsm_ref st s O) refs ([], [])).
+
+(* Switch(test, [(k, stmts)]) with an int pattern: to_binary(k, len(test)); a value that the test's shape cannot
+   represent is dropped with a warning (the case never matches) *)
+Definition int_case_patterns (test : expr) (k : Z) : list pattern :=
+  if in_rangeb (shape_of test) k then [bin_pattern (ewidth test) k] else [].
+
+(* init = encoding[next(iter(states))] if init is None else encoding[init];  None = KeyError / StopIteration *)
+Definition fsm_init_value {B : Type} (init : option nat) (enc : list (nat * Z)) (states : list (nat * B)) : option Z :=
+  match init with
+  | None => match states with [] => None | sb :: _ => assoc_get enc (fst sb) end
+  | Some s => assoc_get enc s
+  end.
+
+(* decoding.update((n, s) for s, n in encoding.items()) *)
+Definition fsm_decoding (dec0 : list (Z * nat)) (enc : list (nat * Z)) : list (Z * nat) :=
+  fold_left (fun d sn => zassoc_set d (snd sn) (fst sn)) enc dec0.
+
+(* the state register: Signal(Enum(.., [(label, n) for n in range(len(decoding))]), init=init) *)
+Definition fsm_state_shape (dec : list (Z * nat)) : shape :=
+  cast_enum (py_range 0 (Z.of_nat (length dec)) 1).
+
+(* ongoing(s) signals: sig.eq(fsm_signal == encoding[s]), appended to the top-level comb statements *)
+Definition fsm_ongoing_stmts (reg : expr) (enc : list (nat * Z)) (og : list (nat * expr)) : option (list stmt) :=
+  opt_map (fun so => match assoc_get enc (fst so) with
+                     | Some k => Some (SAssign (snd so) (EOp2 OEq reg (mk_const_auto k)))
+                     | None => None
+                     end) og.
+
+(* Switch(fsm_signal, [(encoding[name], stmts) for name, stmts in states.items()]) *)
+Definition lower_fsm (reg : expr) (enc : list (nat * Z)) (states : list (nat * list stmt)) : option stmt :=
+  match opt_map (fun sb => match assoc_get enc (fst sb) with
+                           | Some k => Some (Some (int_case_patterns reg k), snd sb)
+                           | None => None
+                           end) states with
+  | Some cs => Some (SSwitch reg cs)
+  | None => None
+  end.
+
+(* everything the "FSM" branch produces for one domain: (state register, its init value, statements appended to
+   the top-level comb list, statements appended to the domain's list).  `reg_id` is the identity of the new
+   register; no states: a 0-wide register and nothing else *)
+Definition pop_fsm (reg_id : nat) (init : option nat) (enc : list (nat * Z)) (dec0 : list (Z * nat))
+    (states : list (nat * list stmt)) (og : list (nat * expr)) : option (expr * Z * list stmt * list stmt) :=
+  match states with
+  | [] => Some (ESig reg_id (Sh 0 false), 0, [], [])
+  | _ =>
+    match fsm_init_value init enc states with
+    | None => None
+    | Some iv =>
+      let reg := ESig reg_id (fsm_state_shape (fsm_decoding dec0 enc)) in
+      match fsm_ongoing_stmts reg enc og with
+      | None => None
+      | Some ogs =>
+        match lower_fsm reg enc states with
+        | None => None
+        | Some sw => Some (reg, iv, ogs, [sw])
+        end
+      end
+    end
+  end.
+
+(* SPEC of an FSM Switch: the body of the first state whose encoding is the register's value *)
+Fixpoint fsm_active_body (v : Z) (enc : list (nat * Z)) (states : list (nat * list stmt)) : list stmt :=
+  match states with
+  | [] => []
+  | sb :: r => match assoc_get enc (fst sb) with
+               | Some k => if v =? k then snd sb else fsm_active_body v enc r
+               | None => fsm_active_body v enc r
+               end
+  end.
